@@ -21,7 +21,7 @@ from uneval_ir import IRError
 # class -> (sympy-field index inspected, numeric values that get their own template)
 VALUE_CASES = {
     # evaluate(): `if ell.free_symbols: <Hankel formula> else <polynomial from lambdify(simplify(..))>`
-    "ampform.dynamics.form_factor.BlattWeisskopfSquared": (1, [0, 1, 2, 3, 4]),
+    "ampform.dynamics.form_factor.BlattWeisskopfSquared": (1, [0, 1, 2]),
 }
 # classes deliberately not translated (none today); each entry needs a justification
 SKIP: dict[str, str] = {}
@@ -115,7 +115,7 @@ def probe(c, q, templates):
     sf, af = U.sym_fields(c), U.attr_fields(c)
     n = len(sf)
     trials = [[sp.Symbol(f"q{i}", real=True) for i in range(n)],
-              [sp.Symbol("a") + i for i in range(n)],
+              [sp.sin(sp.Symbol("a")) ** (i + 1) for i in range(n)],  # no Add: SymPy distributes numbers over Add
               [sp.Rational(2 * i + 3, 2) if i % 2 else sp.Integer(i + 2) for i in range(n)]]
     done = 0
     for tr in trials:
@@ -128,10 +128,8 @@ def probe(c, q, templates):
             inst = c(*[kw[x] for x in names])
             if not isinstance(inst, c):
                 continue
-            want = inst.evaluate()
         except Exception:  # noqa: BLE001
             continue  # the class does not accept such arguments
-        args_ir = [U.to_ir(a) for a in inst.args]
         t = None
         for g, tt in templates:
             if g[0] == "GTrue" or (g[0] == "GHasFree" and inst.args[g[1]].free_symbols) or \
@@ -139,9 +137,14 @@ def probe(c, q, templates):
                 t = tt
                 break
         if t is None:
+            continue  # outside the listed cases (the model has no template there either)
+        try:
+            want = inst.evaluate()
+        except Exception:  # noqa: BLE001
             continue
+        args_ir = [U.to_ir(a) for a in inst.args]
         got = U.from_ir(inst_py(t, args_ir, attrs_ir))
-        if U.canon_dummies(got) != U.canon_dummies(want):
+        if U.canon_dummies(got) != U.canon_dummies(U.norm(want)):
             raise IRError(f"{q}: evaluate() is not an instance of its template on {tr} "
                           f"(inspects argument values? add VALUE_CASES)")
         done += 1
